@@ -357,31 +357,18 @@ def run(tier):
                             r, 'CONST-TABLE(frequency map within band predicate)', instance='%s: all %d %s frequencies satisfy %s' % (short_r, len(arr), meth, preds[0].split('::')[-1]))
                 cov_tables['%s.%s' % (short_r, meth)] = [arr[0], arr[-1], len(arr)]
         else:
-            ib = tables._method_body(prog, r, DCR, 'init_channels')
-            bfi = c.pf.bf(ib)
-            fs = []
-            for bb, t in bfi.calls():
-                if callee_name(t).endswith('Channel::new'):
-                    fs.append(term_of_operand(bfi, t.args[0]))
+            from . import regional
+            slots_, forms_ = regional.default_channel_forms(prog, r)
+            fs = forms_
             offsets = [0]
             if 'AS923' in r:
-                offsets = sorted({int(m.group(1)) for im in prog.impls for m in [re.search(r'AS923Region<\d+, (\d+)>', im['self_ty'])] if m} |
-                                 {int(m.group(1)) for a_ in prog.adts for m in [re.search(r'AS923Region<\d+, (\d+)>', a_)] if m} |
-                                 {int(m.group(1)) for p_ in prog.by_short for m in [re.search(r'AS923Region<\d+, (\d+)>', p_)] if m})
+                offsets = sorted(off_ for rx2_, off_ in regional.as923_groups(prog))
                 if len(offsets) < 4:
                     raise CheckError('anchor: AS923 offsets found %s' % offsets)
             for off_ in offsets:
-                vals = []
-                for t in fs:
-                    lin, k = rules.linear(t)
-                    if not lin:
-                        vals.append(k)
-                    elif len(lin) == 1 and 'OFFSET' in str(list(lin)[0]):
-                        vals.append(k + list(lin.values())[0] * off_)
-                    else:
-                        vals.append(None)
+                vals = [None if k0 is None else k0 + co * off_ for (i_, k0, co) in forms_]
                 if None in vals or not vals:
-                    raise CheckError('tables: init_channels frequencies of %s not constant: %s' % (short_r, [term_str(x) for x in fs]))
+                    raise CheckError('tables: init_channels frequencies of %s not constant: %s' % (short_r, forms_))
                 oks = []
                 for f_ in vals:
                     oks.append(any(tables.bool_table(prog, b_, [f_])[f_] is True for b_ in pb))
